@@ -22,13 +22,44 @@ def parseObs (s : String) : Option (List (Rng × Rng)) :=
 
 def bits (l : List Bool) : String := String.ofList (l.map fun b => if b then '1' else '0')
 
+/-- Diagnostic only (which clause of `validSTB` fails first); the verdict is `validSTB`. -/
+def whyInvalidST : STMoc → String
+  | [] => "none"
+  | e :: t =>
+    if !canonB e.1 then "time-not-canonical"
+    else if e.1.isEmpty then "time-empty"
+    else if !canonB e.2 then "space-not-canonical"
+    else if e.2.isEmpty then "space-empty"
+    else if !(t.all fun f => decide (lastEnd e.1 ≤ firstInstant f)) then "elements-overlap-or-unordered-in-time"
+    else whyInvalidST t
+
+/-- Diagnostic only (which clause of `validFlatB` fails first). -/
+def whyInvalidFlat : STMoc → String
+  | [] => "none"
+  | [e] =>
+    (match e.1 with
+     | [r] => if r.1 < r.2 then (if !canonB e.2 then "space-not-canonical" else if e.2.isEmpty then "space-empty" else "none")
+              else "zero-length-time-range"
+     | _ => "not-one-time-range")
+  | e :: f :: t =>
+    (match e.1, f.1 with
+     | [r], [q] =>
+       if !(r.1 < r.2) then "zero-length-time-range"
+       else if !(r.2 ≤ q.1) then "time-ranges-overlap-or-unordered"
+       else if r.2 = q.1 && e.2 == f.2 then "touching-ranges-with-identical-space-not-fused"
+       else if !canonB e.2 then "space-not-canonical"
+       else if e.2.isEmpty then "space-empty"
+       else whyInvalidFlat (f :: t)
+     | _, _ => "not-one-time-range")
+
+
 def stepST (toks : List String) : Option String :=
   match toks with
   | ["st_sem", tt, a, b, tp, sp] => do
     let tt ← tt.toNat?; let a ← parseST a; let b ← parseST b; let tp ← parseNats tp; let sp ← parseNats sp
     pure (bits (tp.flatMap fun t => sp.map fun s => stPointOp tt a b t s))
-  | ["st_valid", m] => do let m ← parseST m; pure (showBool (validSTB m))
-  | ["st_validflat", m] => do let m ← parseST m; pure (showBool (validFlatB m))
+  | ["st_valid", m] => do let m ← parseST m; pure (if validSTB m then "true" else "false:" ++ whyInvalidST m)
+  | ["st_validflat", m] => do let m ← parseST m; pure (if validFlatB m then "true" else "false:" ++ whyInvalidFlat m)
   | ["st_tfold", tm, a, sp] => do
     let tm ← parseRngs tm; let a ← parseST a; let sp ← parseNats sp
     pure (bits (sp.map fun s => tfoldB tm a s))
